@@ -176,3 +176,82 @@ Example c15_nonvacuous :
   /\ check_case (mk [SavePack 1 [10]; SaveIdx 100 [(1, [10])]; SaveSnap 200 [10]; RmPack 1] [] [100] [200] true) = 2%nat
   /\ check_case (mk [SavePack 1 [10]; SaveIdx 100 [(1, [10])]; SaveSnap 200 [10]; RmPack 1] [] [100] [200] false) = 1%nat.
 Proof. vm_compute. repeat split. Qed.
+
+(* ---------- a command template: backup ---------- *)
+(* what a (possibly interrupted) backup sends to the backend: its new packs, one index file that lists
+   exactly these packs, then the snapshot *)
+Definition backup_ops (ps : list (id * list id)) (i s : id) (needs : list id) : list op :=
+  map (fun p => SavePack (fst p) (snd p)) ps ++ [SaveIdx i ps; SaveSnap s needs].
+
+Lemma ids_eqb_refl l : ids_eqb l l = true.
+Proof. unfold ids_eqb. apply list_eqb_spec; [intros; apply N.eqb_eq | reflexivity]. Qed.
+
+Lemma remove_fresh {A} (l : list (id * A)) k : find l k = None -> remove l k = l.
+Proof.
+  induction l as [|[q v] r IH]; [reflexivity|]. cbn [find remove filter fst].
+  destruct (q =? k) eqn:Hq; [discriminate|]. intros H. cbn [negb]. fold (remove r k). rewrite IH by exact H. reflexivity.
+Qed.
+
+Lemma save_packs_trace ps : forall R,
+  NoDup (map fst ps) -> (forall p, In p ps -> find (s_packs R) (fst p) = None) ->
+  ok_trace R (map (fun p => SavePack (fst p) (snd p)) ps) = true /\
+  s_idx (run R (map (fun p => SavePack (fst p) (snd p)) ps)) = s_idx R /\
+  s_snaps (run R (map (fun p => SavePack (fst p) (snd p)) ps)) = s_snaps R /\
+  (forall p, In p ps -> find (s_packs (run R (map (fun p => SavePack (fst p) (snd p)) ps))) (fst p) = Some (snd p)).
+Proof.
+  induction ps as [|p r IH]; intros R Hnd Hfresh.
+  - repeat split. intros p [].
+  - cbn [map] in Hnd. inversion Hnd as [|? ? Hni Hnd']; subst.
+    cbn [map ok_trace ok_step]. unfold run. cbn [fold_left apply].
+    rewrite (Hfresh p (or_introl eq_refl)). cbn [andb].
+    set (R' := St ((fst p, snd p) :: s_packs R) (s_idx R) (s_snaps R)).
+    assert (Hf' : forall q, In q r -> find (s_packs R') (fst q) = None).
+    { intros q Hq. cbn [R' s_packs find]. destruct (fst p =? fst q) eqn:He.
+      - apply N.eqb_eq in He. exfalso. apply Hni. rewrite He. apply in_map; exact Hq.
+      - apply Hfresh. right; exact Hq. }
+    destruct (IH R' Hnd' Hf') as [H1 [H2 [H3 H4]]]. fold (run R' (map (fun p0 => SavePack (fst p0) (snd p0)) r)).
+    split; [exact H1|]. split; [exact H2|]. split; [exact H3|].
+    intros q [<-|Hq]; [|apply H4; exact Hq].
+    (* the head pack stays findable: later saves only add other ids *)
+    assert (G : forall l (S0 : st), find (s_packs S0) (fst p) = Some (snd p) ->
+              find (s_packs (run S0 (map (fun p0 => SavePack (fst p0) (snd p0)) l))) (fst p) = Some (snd p)).
+    { induction l as [|a l IHl]; intros S0 H0; [exact H0|]. unfold run. cbn [map fold_left apply].
+      apply IHl. destruct (find (s_packs S0) (fst a)) eqn:Ha; [exact H0|]. cbn [s_packs find].
+      destruct (fst a =? fst p) eqn:He; [|exact H0]. apply N.eqb_eq in He. rewrite He in Ha. congruence. }
+    apply G. unfold R'. cbn [s_packs find]. rewrite N.eqb_refl. reflexivity.
+Qed.
+
+(* a backup that writes fresh packs, an index file listing exactly them and a snapshot that reaches
+   only blobs indexed before or by this index file follows the discipline - so by
+   C15_produced_is_clean it (and every crashed prefix of it) keeps check clean *)
+Lemma backup_follows_discipline R ps i s needs :
+  inv R = true ->
+  NoDup (map fst ps) -> (forall p, In p ps -> find (s_packs R) (fst p) = None) ->
+  find (s_idx R) i = None ->
+  (forall h, In h needs -> in_index (s_idx R) h = true \/ in_body ps h = true) ->
+  ok_trace R (backup_ops ps i s needs) = true.
+Proof.
+  intros Hi Hnd Hfresh Hix Hneeds. unfold backup_ops.
+  destruct (save_packs_trace ps R Hnd Hfresh) as [H1 [H2 [H3 H4]]].
+  set (R1 := run R (map (fun p => SavePack (fst p) (snd p)) ps)) in *.
+  assert (Happ : forall l1 l2 S0, ok_trace S0 (l1 ++ l2) = ok_trace S0 l1 && ok_trace (run S0 l1) l2).
+  { induction l1 as [|o l1 IHl]; intros l2 S0; [reflexivity|]. cbn [app ok_trace]. unfold run. cbn [fold_left].
+    rewrite IHl, andb_assoc. reflexivity. }
+  rewrite Happ, H1. cbn [andb]. fold R1. cbn [ok_trace ok_step apply].
+  apply inv_split in Hi as [HA HB].
+  assert (Hb : body_ok (s_packs R1) ps = true).
+  { unfold body_ok. apply forallb_forall. intros e He. cbn beta. pose proof (H4 e He) as Hq. unfold id in *. rewrite Hq. apply ids_eqb_refl. }
+  rewrite Hb, H2, H3, (remove_fresh (s_idx R) i Hix). cbn [andb].
+  assert (Hs : snaps_ok ((i, ps) :: s_idx R) (s_snaps R) = true).
+  { unfold snaps_ok in *. rewrite forallb_forall in *. intros sn Hsn. specialize (HB sn Hsn).
+    rewrite forallb_forall in *. intros h Hh. eapply in_index_mono; [|apply HB; exact Hh]. intros f Hf; right; exact Hf. }
+  apply andb_true_iff. split; [exact Hs|]. cbn [s_idx]. rewrite andb_true_r.
+  apply forallb_forall. intros h Hh. unfold in_index. cbn [existsb snd].
+  destruct (Hneeds h Hh) as [Hq|Hq]; [|rewrite Hq; reflexivity].
+  unfold in_index in Hq. rewrite Hq. apply orb_true_r.
+Qed.
+
+Example backup_template_nonvacuous :
+  ok_trace (run empty [SavePack 1 [10]; SaveIdx 100 [(1, [10])]; SaveSnap 200 [10]])
+           (backup_ops [(2, [11; 12]); (3, [20])] 101 201 [20; 10; 12]) = true.
+Proof. vm_compute. reflexivity. Qed.
